@@ -4,8 +4,15 @@ Daemon and feed raw INVOKE messages to the real Daemon.handleRequest through a f
 
 Shape (JSON):
   {"base_exposed": bool, "sub_exposed": bool,
-   "members": [{"name": str, "kind": "method|static|classm|prop|cattr|iattr|helper", "in": "base|sub",
-                "mark": bool, "fname": str, "oneway": bool, "get": bool, "set": bool, "hexp": bool}, ...]}
+   "members": [{"name": str, "kind": "method|static|classm|prop|cattr|iattr|helper|hook", "in": "base|sub",
+                "mark": bool, "fname": str, "oneway": bool, "get": bool, "set": bool, "hexp": bool,
+                # optional (defaults keep old cases valid):
+                "gmark"/"smark"/"dmark": bool   own @expose applied to that accessor *function*,
+                "del": bool                     deleter present (default: only when neither getter nor setter),
+                "hcall": bool                   the helper's class defines __call__,
+                "hbase": bool                   the helper's class is exposed through a base class}, ...]}
+   kind "hook": name is "__getattr__" or "__getattribute__" — the class's own attribute hook; it logs
+   [index, "hook"] when the interpreter invokes it for a name the current request asked for.
 The registered object is an instance of Sub(Base).  Every member body appends (member index, accessor)
 to a log and returns "ran:<index>:<accessor>"; nothing else is ever mutated, so any change of the
 instance/class dictionaries is an effect of the *request*.
@@ -27,6 +34,11 @@ def is_dunder(name):
 
 class Built:
     pass
+
+
+# the interpreter itself looks up __class__ on any instance (isinstance); a hook invocation for it is not
+# caused by the request's member name (the gate refuses the reserved name __class__ before touching the instance)
+HOOK_INTERNAL = ("__class__",)
 
 
 def _hook_default(name, self, a, k):
@@ -53,6 +65,7 @@ def build(shape, srv):
     """Returns Built with .obj, .log, .refused_marks (indices whose own @expose raised), .cls"""
     log = []
     refused = []
+    current = set()      # the string names of the request in progress (set by Rig.request)
     ns = {"base": {}, "sub": {}}
     inst = {}
 
@@ -75,11 +88,36 @@ def build(shape, srv):
         body.__qualname__ = "Target." + fname
         return body
 
+    def mk_hook(mid, hookname):
+        """the class's own __getattr__ / __getattribute__: logs when invoked for a requested name"""
+        def wanted(a):
+            return len(a) == 1 and isinstance(a[0], str) and a[0] in current and a[0] not in HOOK_INTERNAL
+        if hookname == "__getattribute__":
+            def body(self, *a, **k):
+                if a and a[0] == TOKEN:
+                    log.append([mid, "call"])
+                    return "ran:%d:call" % mid
+                if wanted(a):
+                    log.append([mid, "hook"])
+                return object.__getattribute__(self, *a)
+        else:
+            def body(self, *a, **k):
+                if a and a[0] == TOKEN:
+                    log.append([mid, "call"])
+                    return "ran:%d:call" % mid
+                if wanted(a):
+                    log.append([mid, "hook"])
+                raise AttributeError(a[0] if a else hookname)
+        body.__name__ = hookname
+        body.__qualname__ = "Target." + hookname
+        return body
+
     def own_mark(thing, mid):
         try:
             return srv.expose(thing)
         except AttributeError:
-            refused.append(mid)
+            if mid not in refused:
+                refused.append(mid)
             return thing
 
     for mid, m in enumerate(shape["members"]):
@@ -90,20 +128,36 @@ def build(shape, srv):
             if kind == "iattr":
                 inst[name] = 1000 + mid
             else:
-                def hm(self, *a, **k):
+                def hm(self, *a, mid=mid, **k):
                     log.append([mid, "helper"])
                     return "ran:%d:helper" % mid
                 hm.__name__ = "hm"
-                hcls = type("Helper", (object,), {"hm": srv.expose(hm), "value": 7})
-                if m.get("hexp"):
-                    hcls = srv.expose(hcls)
+                hns = {"hm": srv.expose(hm), "value": 7}
+                if m.get("hcall"):
+                    def hcall(self, *a, mid=mid, **k):
+                        log.append([mid, "hcall"])
+                        return "ran:%d:hcall" % mid
+                    hcall.__name__ = "__call__"
+                    hns["__call__"] = hcall
+                if m.get("hexp") and m.get("hbase"):
+                    hb = srv.expose(type("HelperBase", (object,), {}))      # _pyroExposed is inherited
+                    hcls = type("Helper", (hb,), hns)
+                else:
+                    hcls = type("Helper", (object,), hns)
+                    if m.get("hexp"):
+                        hcls = srv.expose(hcls)
                 inst[name] = hcls()
             continue
         d = ns[m["in"]]
         if name in d:
             continue          # first definition in a class body wins (harness convention)
         fname = m.get("fname") or name
-        if kind in METHOD_KINDS:
+        if kind == "hook":
+            f = mk_hook(mid, name)
+            if m.get("mark"):
+                f = own_mark(f, mid)
+            d[name] = f
+        elif kind in METHOD_KINDS:
             hook = name if (kind == "method" and is_dunder(name)) else None
             f = mk(mid, "call", fname, kind, hook)
             if m.get("mark"):
@@ -116,12 +170,20 @@ def build(shape, srv):
                 f = classmethod(f)
             d[name] = f
         elif kind == "prop":
+            has_del = m["del"] if m.get("del") is not None else not (m.get("get") or m.get("set"))
             g = mk(mid, "get", fname, "prop") if m.get("get") else None
             s = mk(mid, "set", fname, "prop") if m.get("set") else None
-            dl = mk(mid, "del", fname, "prop") if not (m.get("get") or m.get("set")) else None
+            dl = mk(mid, "del", fname, "prop") if has_del else None
+            # @expose directly on an accessor function (below @property / @x.setter / @x.deleter)
+            if g is not None and m.get("gmark"):
+                g = own_mark(g, mid)
+            if s is not None and m.get("smark"):
+                s = own_mark(s, mid)
+            if dl is not None and m.get("dmark"):
+                dl = own_mark(dl, mid)
             p = property(g, s, dl)
             if m.get("mark"):
-                p = own_mark(p, mid)
+                p = own_mark(p, mid)        # @expose on the property object marks its first accessor only
             d[name] = p
         elif kind == "cattr":
             d[name] = 2000 + mid
@@ -133,12 +195,16 @@ def build(shape, srv):
     sub = type("Target", (base,), dict(ns["sub"]))
     if shape.get("sub_exposed"):
         sub = srv.expose(sub)
-    obj = sub()
-    for k, v in inst.items():
-        object.__getattribute__(obj, "__dict__")[k] = v      # never through a property setter
-    del log[:]
+    def new_instance():
+        o = sub()
+        for k, v in inst.items():
+            object.__getattribute__(o, "__dict__")[k] = v      # never through a property setter
+        del log[:]
+        return o
+    obj = new_instance()
     b = Built()
-    b.obj, b.log, b.refused_marks, b.cls, b.base = obj, log, sorted(refused), sub, base
+    b.new_instance = new_instance
+    b.obj, b.log, b.refused_marks, b.cls, b.base, b.current = obj, log, sorted(refused), sub, base, current
     return b
 
 
@@ -194,12 +260,13 @@ class Rig:
             return NONSTRING[n["ns"]]
         return n
 
-    def snapshot(self, built):
+    def snapshot(self, built, obj=None):
         def safe(d):
             return sorted((k, id(v)) for k, v in d.items() if k not in ("_pyroId", "_pyroDaemon"))
-        return (safe(object.__getattribute__(built.obj, "__dict__")), safe(vars(built.cls)), safe(vars(built.base)))
+        obj = built.obj if obj is None else obj
+        return (safe(object.__getattribute__(obj, "__dict__")), safe(vars(built.cls)), safe(vars(built.base)))
 
-    def request(self, built, oid, req, ser="serpent"):
+    def request(self, built, oid, req, ser="serpent", obj=None):
         """send one raw INVOKE; returns the observation dict"""
         P = self.protocol
         serializer = self.serializers.serializers[ser]
@@ -226,7 +293,9 @@ class Rig:
         msg = P.SendingMessage(P.MSG_INVOKE, flags, self.seq, serializer.serializer_id, data)
         conn = FakeConn(bytes(msg.data), self.errors)
         del built.log[:]
-        before = self.snapshot(built)
+        built.current.clear()
+        built.current.update(n for n in names if isinstance(n, str))
+        before = self.snapshot(built, obj)
         try:
             with warnings.catch_warnings():
                 warnings.simplefilter("ignore")
@@ -236,7 +305,8 @@ class Rig:
         for t in threading.enumerate():
             if t.name == "oneway-call" and t is not threading.current_thread():
                 t.join(5)
-        obs["state_changed"] = self.snapshot(built) != before
+        built.current.clear()
+        obs["state_changed"] = self.snapshot(built, obj) != before
         obs["log"] = [list(e) for e in built.log]
         if conn.sent:
             rc = FakeConn(conn.sent, self.errors)
@@ -292,3 +362,33 @@ class Rig:
             except Exception:
                 pass
         return {"meta": md, "refused_marks": built.refused_marks, "reqs": out}
+
+    def run_history(self, shapes, objects, ops, ser="serpent"):
+        """several classes (all called Target), several registered objects (objects[i] = class index), and a
+        sequence of {"op": "meta", "obj": i} / {"op": "req", "obj": i, "req": {...}} -> one observation per op"""
+        builts = [build(sh, self.srv) for sh in shapes]
+        insts, oids = [], []
+        firsts = set()
+        for i, ci in enumerate(objects):
+            b = builts[ci]
+            o = b.obj if ci not in firsts else b.new_instance()
+            firsts.add(ci)
+            insts.append(o)
+            oid = "obj_c02_%d" % i
+            oids.append(oid)
+            self.daemon.register(o, oid, force=True)
+        out = []
+        try:
+            for op in ops:
+                i = op["obj"]
+                if op["op"] == "meta":
+                    out.append({"meta": self.metadata(oids[i])})
+                else:
+                    out.append(self.request(builts[objects[i]], oids[i], op["req"], ser, obj=insts[i]))
+        finally:
+            for oid in oids:
+                try:
+                    self.daemon.unregister(oid)
+                except Exception:
+                    pass
+        return {"ops": out}
